@@ -28,6 +28,57 @@ META = {
                      "SMT semantics of each operator (enc.rs) is the right generalisation of the values cross-validated on the boundary grid",
                      "z3 5.1.0 and z3 4.8.12 agree on every query (unsat needs both)"],
     ),
+    "C03": dict(
+        cmd="c03",
+        what="SessionState::create_logical_plan + Analyzer, then the real Optimizer: full default pipeline, each rule alone, pipeline minus one rule",
+        functions=["datafusion_optimizer::Optimizer::optimize with the default rule list (push_down_filter, push_down_limit, eliminate_outer_join, eliminate_cross_join, "
+                   "eliminate_join, common_subexpr_eliminate, optimize_projections, propagate_empty_relation, single_distinct_to_groupby, replace_distinct_aggregate, "
+                   "eliminate_group_by_constant, simplify_expressions, extract_equijoin_predicate, filter_null_join_keys, eliminate_filter/limit/duplicated_expr, optimize_unions, ...)",
+                   "Optimizer::with_rules(vec![rule]) and with_rules(all minus one)", "SessionContext::execute_logical_plan without logical optimizer rules (replay)"],
+        bounds="SQL over t1(a,b), t2(a,c), t3(b,d) (Int32, nullable): filters, projections, subqueries in FROM, DISTINCT, UNION [ALL], GROUP BY with count/sum/min/max (+FILTER, HAVING), "
+               "2- and 3-way INNER/LEFT/RIGHT/FULL joins with ON / USING / WHERE predicates on either side, cross joins, constant-false inputs; every database with <= 2 (quick) / 3 (thorough) "
+               "rows per table: all cell values (32 bit) and NULL flags are solver variables",
+        outside=["window functions, unnest, recursive queries, GROUPING SETS, IN/EXISTS/scalar subqueries (not encoded: counted as unsupported)", "LIMIT/OFFSET that depends on row order",
+                 "tables with more rows than the bound (a rule wrong only for >= 4 rows per table is missed)", "float/string columns", "row ORDER of sorted outputs (results are compared as multisets)"],
+        assumptions=["both plans must be executable (no expression error on any evaluated row) for a difference to count", "relational semantics of each plan node as encoded in t/src/plan.rs (validated by replaying every model in the real engine)",
+                     "z3 5.1.0 and z3 4.8.12 agree on every query (unsat needs both)"],
+    ),
+    "C38": dict(
+        cmd="c38",
+        what="datafusion_sql::unparser::plan_to_sql (default dialect) on unoptimized and optimized plans, text re-planned with create_logical_plan + Analyzer",
+        functions=["datafusion_sql::unparser::plan_to_sql", "sqlparser Statement::to_string", "SessionState::create_logical_plan (re-planning the generated text)"],
+        bounds="the C03 SQL corpus, each statement unparsed from its analyzed plan and from its optimized plan; databases with <= 2 / 3 rows per table, cells symbolic",
+        outside=["non-default dialects", "plans the unparser declines", "everything outside C03's bound"],
+        assumptions=["generated SQL that the engine's own planner rejects counts as a violation (the property requires re-planning to succeed)", "output column NAMES are not compared (types and rows are)",
+                     "z3 5.1.0 and z3 4.8.12 agree on every query"],
+    ),
+    "C41": dict(
+        cmd="c41",
+        what="LogicalPlan::with_param_values on statements with $n placeholders, and PREPARE / EXECUTE through SessionContext::sql, against the same statement with literals",
+        functions=["datafusion_expr::LogicalPlan::with_param_values / replace_params_with_values", "SessionContext::sql (PREPARE, EXECUTE)", "placeholder type inference in datafusion_sql"],
+        bounds="13 statement templates with 1-2 positional parameters in filters, projections, BETWEEN, IN lists, HAVING, join conditions, CASE; parameter values from {0,1,-1,2,i32::MIN,i32::MAX,MAX-1,NULL} "
+               "as BIGINT; databases with <= 2 / 3 rows per table, cells symbolic",
+        outside=["named parameters, LIMIT/OFFSET parameters, parameters inside subqueries", "non-integer parameter types"],
+        assumptions=["the literal equivalent of a typed NULL parameter is CAST(NULL AS BIGINT)", "z3 5.1.0 and z3 4.8.12 agree on every query"],
+    ),
+    "C48": dict(
+        cmd="c48",
+        what="DataFrame builder methods (filter, select, select_columns, with_column, with_column_renamed, drop_columns, distinct, aggregate, join, join_on, union, union_distinct, union_by_name, "
+             "intersect[_distinct], except[_distinct], sort, limit) against the SQL statement with the same meaning, before and after the optimizer",
+        functions=["datafusion::dataframe::DataFrame::{filter,select,select_columns,with_column,with_column_renamed,drop_columns,distinct,aggregate,join,join_on,union,union_distinct,union_by_name,intersect,intersect_distinct,except,except_distinct,sort,limit}",
+                   "SessionState::create_logical_plan (SQL side)", "Optimizer (optimized variants)"],
+        bounds="32 operation chains (length 1-3) each paired with its SQL rendering; databases with <= 2 / 3 rows per table, cells symbolic",
+        outside=["unnest, window columns, distinct_on, chains longer than 3", "row order of sorted results", "everything outside C03's bound"],
+        assumptions=["the hand-written SQL rendering of each chain is the intended meaning (integer literals are written as BIGINT on the DataFrame side, as SQL does)", "z3 5.1.0 and z3 4.8.12 agree on every query"],
+    ),
+    "C37": dict(
+        cmd="c37",
+        what="datafusion_substrait::logical_plan::producer::to_substrait_plan followed by consumer::from_substrait_plan on optimized plans",
+        functions=["datafusion_substrait::logical_plan::producer::to_substrait_plan", "datafusion_substrait::logical_plan::consumer::from_substrait_plan"],
+        bounds="the C03 SQL corpus (optimized plans); databases with <= 2 / 3 rows per table, cells symbolic",
+        outside=["physical Substrait plans", "plans the producer declines", "row order", "everything outside C03's bound"],
+        assumptions=["z3 5.1.0 and z3 4.8.12 agree on every query"],
+    ),
     "C22": dict(
         cmd="c22",
         what="PruningPredicateBuilder::try_build (predicate -> min/max/null_count/row_count predicate) and LiteralGuarantee::analyze",
@@ -57,6 +108,19 @@ META = {
                  "expression graphs deeper than one arithmetic node under one comparison", "endpoints that are not boundary values"],
         assumptions=["a result is only required to be covered when it is representable in the operand type (the property's own precondition)",
                      "unbounded endpoint = the type's extreme value (unsigned lower bound 0), as Interval::new standardises it",
+                     "z3 5.1.0 and z3 4.8.12 agree on every query (unsat needs both)"],
+    ),
+    "C44": dict(
+        cmd="c44",
+        what="DefaultPhysicalExprAdapter::rewrite (datafusion-physical-expr-adapter) on predicates and bare column references over the table schema, for file schemas with reordered, missing, extra and re-typed columns",
+        functions=["datafusion_physical_expr_adapter::DefaultPhysicalExprAdapter::rewrite (rewrite_column, resolve_physical_column, validate_data_type_compatibility)",
+                   "create_physical_expr + PhysicalExpr::evaluate, arrow cast kernel (replay and grid validation)"],
+        bounds="table schema a,b,c : T, p : Boolean with T in {Int32, Int64, UInt8} (thorough adds Int16, UInt32, Int8, UInt64); 9 file-schema variants per T (reordered, missing, extra, narrower/wider/sign-flipped/UInt8 column types and combinations); "
+               "per variant: bare columns, every comparison atom over boundary literals, 12 hand-written predicates, 50 (thorough 160) generated predicates of depth <= 3; every file cell (value of the full width and NULL flag) is a solver variable",
+        outside=["nested struct fields added/removed (get_field narrowing, nested_struct.rs)", "schema_adapter.rs / BatchAdapter plumbing and the Parquet reader's own coercions (schema_coercion.rs)",
+                 "string, float, decimal and temporal columns", "non-nullable missing columns (the adapter returns an error by design)"],
+        assumptions=["specification = the same expression with each table column replaced by CAST(file column AS table type) (non-safe cast: overflow is an error, excluded by the property's precondition) or NULL when missing",
+                     "one-row batches; SMT semantics of casts and comparisons cross-validated on the boundary grid",
                      "z3 5.1.0 and z3 4.8.12 agree on every query (unsat needs both)"],
     ),
     "C47": dict(
@@ -121,8 +185,16 @@ def main():
     sol = r.get("solver", {})
     if sol.get("errors") or sol.get("disagreements"):
         inconclusive.append("solver errors=%s disagreements=%s" % (sol.get("errors"), sol.get("disagreements")))
+    # Programs on which the solvers ran out of time are NOT claimed (they are listed in the evidence as
+    # undecided and do not count as proved); they make the run inconclusive only when they are more than
+    # 2 % of the programs.  Everything else (a model that does not reproduce, solver disagreement, a panic
+    # in the rewriter) is always inconclusive: it means the encoder or a solver cannot be trusted.
+    undecided = [i for i in r.get("inconclusive", []) if "solver undecided" in i]
     for i in r.get("inconclusive", []):
-        inconclusive.append(i[:600])
+        if "solver undecided" not in i:
+            inconclusive.append(i[:600])
+    if len(undecided) > max(2, 0.02 * max(1, r.get("programs", 0))):
+        inconclusive.append("%d programs undecided by the solvers within the time limit, e.g. %s" % (len(undecided), undecided[0][:300]))
     # violations vs known findings
     unlisted, known_hits = [], {}
     os.makedirs(os.path.join(C.BUILD, "replay"), exist_ok=True)
@@ -154,6 +226,8 @@ def main():
         "distinct_nontrivial": r.get("distinct_rewrites", 0),
         "evaluations": r.get("programs", 0),
         "rule": "a program is non-trivial when the real rewriter changed it and the solver showed the precondition (original evaluates without error) satisfiable; distinct = distinct (original => rewritten) pairs proved equivalent",
+        "undecided_solver_timeout_not_claimed": len(undecided),
+        "undecided_examples": [u[:300] for u in undecided[:3]],
         "unchanged_by_rewriter": r.get("unchanged", 0),
         "trivial_original_always_errs": r.get("trivial", 0),
         "unsupported_by_encoder": sum(r.get("unsupported", {}).values()),
